@@ -78,7 +78,7 @@ class FifoOracle(object):
 
     @staticmethod
     def _is_empty(item):
-        return item[0] != "raw" and all(t.strip(" ") == "" for t in item[1])
+        return item[0] not in ("raw", "sub") and all(t.strip(" ") == "" for t in item[1])
 
     def _matches(self, item, info):
         kind, texts, rawlen, sec = item
@@ -103,6 +103,14 @@ class FifoOracle(object):
             if k == "blank":
                 if q:
                     blanks += 1
+                continue
+            # a `Subproject commit <hash>[-dirty]` line is shown by the submodule handler in a form of its own
+            # (`<hash>..<hash>`): what must survive is the (abbreviated) hash, and `-dirty` if the line carries it
+            # (the `-dirty` suffix of a submodule with uncommitted changes is not required: delta's own test
+            # `test_simple_dirty_submodule_diff` pins that it is not shown)
+            while q and q[0][0] == "sub" and q[0][1][0] in info.text:
+                q.pop(0)
+            if q and q[0][0] == "sub" and k in ("minus", "plus", "zero", "mixed", "other"):
                 continue
             if k in ("minus", "plus", "zero", "mixed"):
                 while q and blanks > 0 and self._is_empty(q[0]) and not self._matches(q[0], info):
@@ -403,7 +411,8 @@ class SearchB(Problem):
         self.ocfg = ocfg
         self.oracle = FifoOracle(ocfg)
         self.max_sections = max_sections
-        self.kinds = kinds or (producers.SECTION_KINDS + (["commit"] if src == "git" else []))
+        self.kinds = kinds or (producers.SECTION_KINDS + (["commit", "submodule_deleted", "submodule_added",
+                                                           "submodule_dirty"] if src == "git" else []))
         self.bodies = bodies or producers.BODY_KINDS
         self.with_commit = with_commit
         self.src = src
@@ -425,10 +434,10 @@ class SearchB(Problem):
             return out
         for kind in self.kinds:
             bodies = self.bodies if producers.section(kind, 0, "ctx", self.src)[1]["has_hunk"] \
-                and kind != "submodule" else ["ctx"]
+                and not kind.startswith("submodule") else ["ctx"]
             for body in bodies:
                 lines, info = self.sec(kind, n, body)
-                out.append((lines[0], (n, (kind, body), 1, sub or kind == "submodule"),
+                out.append((lines[0], (n, (kind, body), 1, sub or kind.startswith("submodule")),
                             "sec-" + kind))
         return out
 
@@ -454,7 +463,11 @@ class SearchB(Problem):
         q = model
         n, cur, i, sub = ps
         own = 0
-        if cur is not None and cur[0] != "submodule":
+        if cur is not None and cur[0].startswith("submodule") and line[1:].startswith(b"Subproject commit "):
+            h = line[len(b"-Subproject commit "):].decode()
+            q = self.oracle.push(q, ("sub", (h[:7], "dirty" if h.endswith("-dirty") else ""), len(line), n))
+            return self.oracle.consume_rows(q, out, ps[0], 1, lenient=True)
+        if cur is not None and not cur[0].startswith("submodule"):
             knd, body = cur
             lines, info = self.sec(knd, n, body)
             np_ = 2 if knd == "combined" else 1
